@@ -117,7 +117,7 @@ def c12(pid, tier, t0):
     res = nv.run_shards(exe, ["tier=" + tier, "deadline=%d" % dl(tier)], nv.NCPU, dl(tier) + 60)
     return nv.finish(pid, tier, t0, res, {
         "rule": "all 16 anchor combinations ^? \\<? lit \\>? $? with literals of <= literal_len characters over {a,B,-,space,U+00E9,|,^,b} (empty literal included) "
-                "x all lines of <= line_len characters over {a,b,B,-,space,U+00E9}+newline x icase x notbol x noteol; classifier on every string of <= 3 (thorough 4) symbols over the "
+                "x all lines of <= line_len characters over {a,b,B,-,space,U+00E9}+newline x icase x notbol x noteol, and every suffix of every line with notbol (the way :s///g and mid-line searches call the matchers); classifier on every string of <= 3 (thorough 4) symbols over the "
                 "metacharacter alphabet; non-trivial = comparison in which both matchers found a match",
         "depth_bound": res.stats.get("line_len"),
         "explanation": "rstr_make/rstr_find vs rset_make(1)/rset_find on the same input: same found/not-found, same (so,eo); groups 1..3 pre-filled with a sentinel must come back -1; "
@@ -137,7 +137,7 @@ def c01(pid, tier, t0):
     return nv.finish(pid, tier, t0, res, {
         "rule": "files as (line lengths, final-newline flag): single lines of every length 0..4300 and 8190..8194; all 2-line (thorough: 3-line) files with lengths in "
                 "{0,1,2,127..129,1022..1026,2047..2049,4093..4098,8191..8193}; line counts {0..3,510..514,1022..1026,2047..2049}; every byte 1..255 at offsets 0,1023,1024,4095,4096; "
-                "x all ranges x previous target {absent, shorter, equal, longer by 1, longer by >4096}; all placements of <= deviation_bound short reads/writes (counts 1, n/2, n-1); "
+                "x all ranges x previous target {absent, shorter, equal, longer by 1, longer by >4096}; all placements of <= deviation_bound short reads/writes (counts 1, n/2, n-1; the quick tier places two, including a short retry, on one- and two-line files of every size class); "
                 "plus :e/:w/:a,bw/%p of the real main() on a subset; every file is a distinct non-trivial case",
         "deviation_bound": res.stats.get("deviation_bound"),
         "explanation": "real lbuf_rd/lbuf_wr/sbuf over an in-memory file behind wrapped open/read/write/close/ftruncate (AddressSanitizer build); reference = split on newline / concatenate lines",
@@ -173,7 +173,8 @@ def c05(pid, tier, t0):
     return nv.finish(pid, tier, t0, res, {
         "rule": "(i) all sequences of <= depth tokens over the vi token alphabet (motions, operators with and without motion, counts, register prefixes, inserts with editing keys, "
                 "repeat/macro/undo, scrolls, window and buffer commands, a menu of well-formed/truncated/nonsensical ex lines incl. 510..700-byte lines and nested :g) and over the ex-line "
-                "alphabet, from configurations {empty, ASCII, 30 lines, UTF-8 mix with wide/combining/RTL, 300-char line} x windows {24x80, 2x2, 3x10, 8x40} x option sets; "
+                "alphabet, from configurations {empty, ASCII, 30 lines, UTF-8 mix with wide/combining/RTL, 300-char line, 300-letter word, 130 two-byte letters, 280-byte path name} "
+                "x windows {24x80, 2x2, 3x10, 8x40} x option sets (every single token from every configuration; depth 2 from 5 configurations in the quick tier, from all but the long-word x small-window ones in the thorough tier); "
                 "(ii) 8 base sessions with every single (thorough: also double) token substitution/deletion/insertion; distinct_nontrivial = complete executions that ran to the quit",
         "depth_bound": 2 if tier == "quick" else 3,
         "deviation_bound": 1 if tier == "quick" else 2,
@@ -206,7 +207,7 @@ def c03(pid, tier, t0):
     return nv.finish(pid, tier, t0, res, {
         "rule": "buffer shapes {0 lines, 1 short line, 3x2000 bytes, one 5000-byte line, 2000+5000+10} x commands {w, w!, w g, w! g, wq, x, xa, wq!, xa!}; the call sequence "
                 "open/write*/close of each is learnt from a logged fault-free run, then every placement of <= deviation_bound faults (open->EACCES; write->ENOSPC/EIO/EINTR/short 1,n/2,n-1; "
-                "close->EIO) is executed in a fresh process; plus the target existence/identity/mtime guard matrix without faults; every execution is a distinct non-trivial case",
+                "close->EIO) is executed in a fresh process; plus the target existence/identity/mtime guard matrix without faults, also with an allowed write to another path (w h, w! h, 1,1w h) between the outside change and the command; every execution is a distinct non-trivial case",
         "deviation_bound": res.stats.get("deviation_bound"),
         "explanation": "real editor (ex mode) over the in-memory VFS with a virtual clock; after the command: success reported <=> no error answer fired; file bytes exact on success; "
                        "q + sentinel (refused after a failure, accepted after success); fault-free w! retry must succeed with exact bytes",
@@ -271,11 +272,11 @@ def c15(pid, tier, t0):
     res = nv.run_shards(exe, ["tier=" + tier, "deadline=%d" % dl(tier)], nv.NCPU, dl(tier) + 120)
     nv.conformance(res)
     return nv.finish(pid, tier, t0, res, {
-        "rule": "patterns {a, ^$, b$, .} x {g, g!, v} x ranges {none, %, 2,3, 2,$} x 18 command lists (d, -1d, +1d, .,+1d, s/a/b/, s/a/ab/g, pu a, 0pu a, i|x|., a|x|., c|x|., -1a|a|., d|pu, s/a/c/|-1d, "
-                "nested g/b/d, nested g/a/s/a/b/, y b|pu b, ka|'ad) x every buffer of 1..buffer_lines lines over the contents {a, b, ab, empty}; distinct_nontrivial = globals that change the buffer",
+        "rule": "patterns {a, ^$, b$, .} x {g, g!, v} x ranges {none, %, 2,3, 2,$} x 27 command lists (d, -1d, +1d, .,+1d, s/a/b/, s/a/ab/g, pu a, 0pu a, i|x|., a|x|., c|x|., -1a|a|., d|pu, s/a/c/|-1d, "
+                "nested g/b/d, nested g/a/s/a/b/, y b|pu b, ka|'ad, two-line blocks for c/i/a/.,+1c, the always-rejected 'zd and +9d, and +1s/b/a/, +1s/a/b/, -1s/b/a/ which change whether a neighbouring line matches) x every buffer of 1..buffer_lines lines over the contents {a, b, ab, empty}; distinct_nontrivial = globals that change the buffer",
         "depth_bound": res.stats.get("buffer_lines"),
         "explanation": "real :g through ex_command on an initialised editor (AddressSanitizer build); reference keeps line identities: the lines of the range that still exist are visited once in order, "
-                       "inserted lines never; the number of executions is observed through the text blocks the command list consumes; one :u must restore the pre-global text",
+                       "inserted lines never; the number of executions is observed through the text blocks the command list consumes; one :u must restore the pre-global text; in a second pass two further globals (2,3v/zzz/s/$/!/ and %v/zzz/s/$/!/) run on the state the first one left behind and must visit exactly their own lines",
     }, ["a command list whose last command is rejected stops the global (ex convention, as in the implementation)", "current line after the global is not compared"])
 
 
@@ -343,7 +344,7 @@ def c09(pid, tier, t0):
     return nv.finish(pid, tier, t0, res, {
         "rule": "for every state reached by <= depth preceding commands from {j, w, $, x, dd, yyp, xu, yw} out of every (buffer, line, column) start: for each of 58 change commands "
                 "(x X d c y s S C D r ~ g~ gu gU J p P < > ! i a I A o O with counts on either side, register prefixes, multi-byte / multi-line / edited inserts, prompting filters) the twin pairs "
-                "'c.' vs 'cc', 'c3.' vs 'cccc', 'c.f' vs 'ccf' for f in {x, p, .}, 'cj.' vs 'cjc'; 9 macros: '@q' vs typing, '2@q' vs twice, '@q@@' vs twice; "
+                "'c.' vs 'cc', 'c3.' vs 'cccc', 'c.f' vs 'ccf' for f in {x, p, .}, 'cj.' vs 'cjc'; 9 macros: '@q' vs typing, '2@q' vs twice, '@q@@' vs twice; long records: 'xjA<n bytes><ESC>k0.' vs retyping for 19 lengths n from 1 to 4090; "
                 "distinct_nontrivial = distinct resulting states among the relations",
         "depth_bound": res.stats.get("depth"),
         "explanation": "purely differential: both key sequences are run from the same forked state of the real editor and must end in identical text, cursor and registers (all 256 except . : %)",
